@@ -58,7 +58,7 @@ func c12Cmd(args []string) error {
 	leaf := func(k string) []any { return []any{"leaf", k} }
 
 	wheres := []string{"authn", "handler", "finalizer", "ehset", "ehret"}
-	ehs := []string{"none", "default", "redirect302", "redirect307", "www", "wwwr", "skipdefault", "redirfail"}
+	ehs := []string{"none", "default", "redirect302", "redirect307", "www", "wwwr", "skipdefault", "redirfail", "noneapplies", "condfails"}
 	overrides := []map[string]int{
 		{"none": 0},
 		{"none": 0, "authn": 418},
@@ -131,6 +131,16 @@ func c12Cmd(args []string) error {
 			c.EH = append(c.EH, pipebed.Step{Kind: "eh", N: n(), Mk: "e", Type: "redirect", Code: 303, Cond: "none", Out: []any{"fail"}})
 		case "www", "wwwr":
 			c.EH = append(c.EH, pipebed.Step{Kind: "eh", N: n(), Mk: "e", Type: eh, Cond: "none", Out: ok})
+		case "noneapplies":
+			// every handler has a condition and none holds: the failure is answered as it is
+			c.EH = append(c.EH,
+				pipebed.Step{Kind: "eh", N: "E1", Mk: "e", Type: "redirect", Code: 302, Cond: "false", Out: ok},
+				pipebed.Step{Kind: "eh", N: "E2", Mk: "e", Type: "default", Cond: "false", Out: ok})
+		case "condfails":
+			// the condition of the handler cannot be evaluated: an internal error, whatever was to be handled
+			c.EH = append(c.EH,
+				pipebed.Step{Kind: "eh", N: "E1", Mk: "e", Type: "default", Cond: "error", Out: ok},
+				pipebed.Step{Kind: "eh", N: "E2", Mk: "e", Type: "default", Cond: "true", Out: ok})
 		case "skipdefault":
 			c.EH = append(c.EH,
 				pipebed.Step{Kind: "eh", N: "E1", Mk: "e", Type: "redirect", Code: 302, Cond: "false", Out: ok},
